@@ -313,7 +313,8 @@ impl DOPRI5 {
                 y1[i] =
                     y[i] + h * (A61 * k1[i] + A62 * k2[i] + A63 * k3[i] + A64 * k4[i] + A65 * k5[i]);
             }
-            xph = x + h;
+            // The last step lands on xend itself: x + (xend - x) can miss it by a rounding error
+            xph = if last { xend } else { x + h };
             f.ode(xph, &y1, &mut k6);
 
             // Final stage
